@@ -85,7 +85,7 @@ def rule_retname(text, arg):
             depth += 1 if t.text != "<" else 0
         elif t.text in ")]":
             depth -= 1
-        elif t.text == "-" and toks[j + 1].text == ">" and depth == 0:
+        elif t.text == "-" and toks[j + 1].text == ">" and depth == 0 and arrow is None:
             arrow = j
     if arrow is None:
         raise TransplantError("R14: no return type")
@@ -214,6 +214,7 @@ def rule_fields(text, arg):
     if start < close:
         fields.append((start, close - 1))
     edits, dropped = [], 0
+    prev_end = toks[body].end
     for (a, b) in fields:
         # field name: the identifier before the first ':' at depth 0 (skip attrs / pub)
         name = None
@@ -221,8 +222,11 @@ def rule_fields(text, arg):
             if toks[k].text == ":" and toks[k - 1].kind == "id":
                 name = toks[k - 1].text
                 break
+        # span = everything since the previous separator (doc comments included) up to this field's trailing comma
+        end = toks[b + 1].end if b + 1 < close and toks[b + 1].text == "," else toks[b].end
         if name not in keep:
-            edits.append((toks[a].start, toks[b].end, "")); dropped += 1
+            edits.append((prev_end, end, "")); dropped += 1
+        prev_end = end
     return _splice(text, edits), dropped, "struct reduced to fields {%s} (%d dropped)" % (arg, dropped)
 
 
@@ -329,7 +333,33 @@ def rule_dropstmt(text, arg):
     raise TransplantError("R8: statement `%s` not found" % arg)
 
 
+def rule_bracearm(text, arg):
+    """R15: the match arm `PAT => EXPR,` (PAT given as token prefix) becomes `PAT => { EXPR }` so that a proof block can sit in it"""
+    pat = rs.norm(arg) + ["=", ">"]
+    toks = _tok(text)
+    for j in range(len(toks) - len(pat)):
+        if [t.text for t in toks[j:j + len(pat)]] == pat:
+            k = j + len(pat)
+            if toks[k].text == "{":
+                return text, 0, "arm already braced"
+            depth, e = 0, k
+            while e < len(toks):
+                t = toks[e]
+                if t.text in "([{":
+                    depth += 1
+                elif t.text in ")]}":
+                    if depth == 0:
+                        break
+                    depth -= 1
+                elif t.text == "," and depth == 0:
+                    break
+                e += 1
+            return _splice(text, [(toks[k].start, toks[k].start, "{ "), (toks[e - 1].end, toks[e - 1].end, " }")]), 1, "match arm `%s =>` braced" % arg
+    raise TransplantError("R15: arm `%s` not found" % arg)
+
+
 RULES = {
+    "R15": rule_bracearm,
     "R12": rule_mutparam, "R14": rule_retname, "R3": rule_fnptr, "R6": rule_charmax, "R5": rule_asserteq,
     "R4": rule_forcontinue, "R11": rule_iterret, "R10": rule_fields, "subst": rule_subst, "R13": rule_closurespec,
     "R7": rule_outline, "R8": rule_dropstmt,
